@@ -111,6 +111,12 @@ func (P) Gen(rng *sim.Rng, tier string) *harness.Case {
 					callers[i] = append(callers[i], harness.Op{K: "req", M: 1}) // blocked by the later check if the breaker lets it through
 					break
 				}
+				if cfg.Later && rng.Chance(0.12) {
+					// the later check panics: the chain recovers, the request is passed (and held like any other)
+					callers[i] = append(callers[i], harness.Op{K: "req", M: 2})
+					held++
+					break
+				}
 				callers[i] = append(callers[i], harness.Op{K: "req"})
 				held++
 			case 1:
@@ -184,16 +190,34 @@ type call struct {
 	bad      bool // complete: with an error
 	admitted bool // the breaker let it through (it was admitted, or blocked by the check behind the breaker)
 	later    bool // blocked by the check behind the breaker
+	// handback: completion of a request that was passed through a recovered panic of the check behind the breaker.
+	// The statistic slots hear nothing of it; if it was a probe its exit hook hands the passage back (like a
+	// blocked probe: the retry timeout is not renewed)
+	handback bool
+	of       *call // complete: the Entry call that admitted the request
 	done     bool
 }
 
+// rollback: a HalfOpen->Open transition that hands a passage back instead of re-opening for a new timeout
+func (e *levent) rollback() bool {
+	return e.from == model.HalfOpen && e.to == model.Open && e.call != nil && (e.call.kind == "entry" || e.call.handback)
+}
+
 // laterCheck is a rule-check slot behind the circuit breaker slot; it blocks the requests its caller marked.
-type laterCheck struct{ block []bool }
+type laterCheck struct {
+	block []bool
+	boom  []bool
+}
 
 func (l *laterCheck) Order() uint32 { return 7000 }
 func (l *laterCheck) Check(ctx *base.EntryContext) *base.TokenResult {
-	if t := sim.CurTask(); t >= 0 && t < len(l.block) && l.block[t] {
-		return base.NewTokenResultBlocked(base.BlockTypeUnknown)
+	if t := sim.CurTask(); t >= 0 && t < len(l.block) {
+		if l.boom[t] {
+			panic("scripted panic in a rule-check slot behind the breaker")
+		}
+		if l.block[t] {
+			return base.NewTokenResultBlocked(base.BlockTypeUnknown)
+		}
 	}
 	return nil
 }
@@ -264,7 +288,7 @@ func (P) Exec(c *harness.Case) *harness.Outcome {
 	}
 	defer cb.ClearStateChangeListeners()
 	var chain *base.SlotChain
-	later := &laterCheck{block: make([]bool, k)}
+	later := &laterCheck{block: make([]bool, k), boom: make([]bool, k)}
 	if cfg.Later {
 		chain = sentinel.BuildDefaultSlotChain()
 		chain.AddRuleCheckSlot(later)
@@ -340,6 +364,8 @@ func (P) Exec(c *harness.Case) *harness.Outcome {
 	calls := make([][]*call, k)
 	harness.RunE2(c, o, "C12", clk, k, func(task int) {
 		var held []*base.SentinelEntry
+		boomed := map[*base.SentinelEntry]bool{}
+		entered := map[*base.SentinelEntry]*call{}
 		if task == 0 && heldProbe != nil {
 			held = append(held, heldProbe)
 		}
@@ -361,17 +387,20 @@ func (P) Exec(c *harness.Case) *harness.Outcome {
 			switch op.K {
 			case "req", "rd":
 				var e *base.SentinelEntry
+				var ecl *call
 				do("entry", func(cl *call) {
+					ecl = cl
 					var be *base.BlockError
-					later.block[task] = op.M == 1
+					later.block[task], later.boom[task] = op.M == 1, op.M == 2
 					e, be = enter()
-					later.block[task] = false
+					later.block[task], later.boom[task] = false, false
 					cl.later = be != nil && be.BlockType() == base.BlockTypeUnknown
 					cl.admitted = e != nil || cl.later
 				})
 				if e != nil {
+					boomed[e], entered[e] = op.M == 2, ecl
 					if op.K == "rd" {
-						do("complete", func(cl *call) { cl.bad = op.F; complete(e, op.F) })
+						do("complete", func(cl *call) { cl.bad, cl.handback, cl.of = op.F, boomed[e], entered[e]; complete(e, op.F) })
 					} else {
 						held = append(held, e)
 					}
@@ -380,13 +409,13 @@ func (P) Exec(c *harness.Case) *harness.Outcome {
 				if op.E >= 0 && op.E < len(held) && held[op.E] != nil {
 					e := held[op.E]
 					held[op.E] = nil
-					do("complete", func(cl *call) { cl.bad = op.F; complete(e, op.F) })
+					do("complete", func(cl *call) { cl.bad, cl.handback, cl.of = op.F, boomed[e], entered[e]; complete(e, op.F) })
 				}
 			}
 		}
 		for _, e := range held {
 			if e != nil {
-				do("complete", func(*call) { complete(e, false) })
+				do("complete", func(cl *call) { cl.handback, cl.of = boomed[e], entered[e]; complete(e, false) })
 			}
 		}
 	}, nil)
@@ -449,6 +478,13 @@ func (P) Exec(c *harness.Case) *harness.Outcome {
 			final = st(bs[0].CurrentState())
 		}
 	})
+	// (f) without a probe number a breaker is half-open only while its probe is in flight: every entry has been
+	// exited by now, so it cannot be half-open any more - whatever happened to the probe (completed, blocked behind
+	// the breaker, passed by a recovered panic) must have ended the passage
+	if r.ProbeNum == 0 && final == model.HalfOpen {
+		o.Fail("C12.half-open-with-no-probe-in-flight", 0, "every entry has been exited and the breaker is still half-open (transitions %v): nobody is left whose completion could end this passage, and a half-open breaker admits nobody - the resource stays blocked", fmtEvents(evs))
+		return o
+	}
 	var out, in [3]int
 	for _, e := range evs {
 		legal := (e.from == model.Closed && e.to == model.Open) || (e.from == model.Open && e.to == model.HalfOpen) ||
@@ -477,7 +513,7 @@ func (P) Exec(c *harness.Case) *harness.Outcome {
 	// point after its CAS (exact); the others are reported after further atomic
 	// accesses, so their CAS lies between the invocation of the emitting call and the report.
 	lo := func(e *levent) uint64 {
-		if e.from == model.Open || e.call == nil || e.call.kind == "entry" {
+		if e.from == model.Open || e.call == nil || e.rollback() {
 			return e.seq // (the exit hook of a blocked probe reports right after its CAS as well)
 		}
 		return e.call.inv
@@ -486,13 +522,13 @@ func (P) Exec(c *harness.Case) *harness.Outcome {
 	// HalfOpen->Open reported from inside an Entry call comes from that exit hook, and the transition before it
 	// must be the Open->HalfOpen of the same call
 	for i, e := range evs {
-		if !(e.from == model.HalfOpen && e.to == model.Open && e.call != nil && e.call.kind == "entry") {
+		if !e.rollback() {
 			continue
 		}
 		o.Probe("blocked_probe_handed_the_breaker_back")
 		var own *levent
 		for _, h := range evs[:i] {
-			if h.call == e.call && h.from == model.Open && h.to == model.HalfOpen {
+			if (h.call == e.call || (e.call.of != nil && h.call == e.call.of)) && h.from == model.Open && h.to == model.HalfOpen {
 				own = h
 			}
 		}
@@ -523,7 +559,7 @@ func (P) Exec(c *harness.Case) *harness.Outcome {
 			if a.to != model.Open || a.call == nil {
 				continue
 			}
-			if a.call.kind == "entry" {
+			if a.rollback() {
 				// a blocked probe handed the breaker back from its exit hook: the open period that the probe
 				// interrupted goes on, its retry timeout had elapsed already and is not renewed
 				if a.seq < h.seq && (prevH == nil || a.seq > prevH.seq) {
